@@ -15,9 +15,9 @@ func vRawCells(width int) func(b *refBuf, rows int) {
 }
 
 var vSrvKinds = []vSrvKind{
-	{"UInt8", vRawCells(1)},                 // 0
-	{"Int8", vRawCells(1)},                  // 1
-	{"UInt64", vRawCells(8)},                // 2
+	{"UInt8", vRawCells(1)},  // 0
+	{"Int8", vRawCells(1)},   // 1
+	{"UInt64", vRawCells(8)}, // 2
 	{"String", func(b *refBuf, rows int) { // 3: one-byte strings
 		for i := 0; i < rows; i++ {
 			b.u8(1)
@@ -31,9 +31,9 @@ var vSrvKinds = []vSrvKind{
 			b.u8(v)
 		}
 	}},
-	{"DateTime", vRawCells(4)},       // 5
-	{"DateTime64(3)", vRawCells(8)},  // 6
-	{"DateTime64(6)", vRawCells(8)},  // 7
+	{"DateTime", vRawCells(4)},      // 5
+	{"DateTime64(3)", vRawCells(8)}, // 6
+	{"DateTime64(6)", vRawCells(8)}, // 7
 	{"Array(UInt8)", func(b *refBuf, rows int) { // 8: one element per row
 		for i := 0; i < rows; i++ {
 			b.u64(uint64(i + 1))
@@ -59,20 +59,20 @@ type vTgtKind struct {
 }
 
 var vTgtKinds = []vTgtKind{
-	{"ColUInt8", func() ColResult { return new(ColUInt8) }},                          // 0
-	{"ColInt8", func() ColResult { return new(ColInt8) }},                            // 1
-	{"ColUInt64", func() ColResult { return new(ColUInt64) }},                        // 2
-	{"ColStr", func() ColResult { return new(ColStr) }},                              // 3
-	{"ColEnum", func() ColResult { return new(ColEnum) }},                            // 4
-	{"ColDateTime", func() ColResult { return new(ColDateTime) }},                    // 5
-	{"ColDateTime64", func() ColResult { return new(ColDateTime64) }},                // 6
+	{"ColUInt8", func() ColResult { return new(ColUInt8) }},                                 // 0
+	{"ColInt8", func() ColResult { return new(ColInt8) }},                                   // 1
+	{"ColUInt64", func() ColResult { return new(ColUInt64) }},                               // 2
+	{"ColStr", func() ColResult { return new(ColStr) }},                                     // 3
+	{"ColEnum", func() ColResult { return new(ColEnum) }},                                   // 4
+	{"ColDateTime", func() ColResult { return new(ColDateTime) }},                           // 5
+	{"ColDateTime64", func() ColResult { return new(ColDateTime64) }},                       // 6
 	{"ColDateTime64(p=3)", func() ColResult { return new(ColDateTime64).WithPrecision(3) }}, // 7
-	{"ColArr[uint8]", func() ColResult { return new(ColUInt8).Array() }},             // 8
-	{"ColNullable[uint8]", func() ColResult { return new(ColUInt8).Nullable() }},     // 9
-	{"ColDecimal32", func() ColResult { return new(ColDecimal32) }},                  // 10
-	{"ColFixedStr(2)", func() ColResult { return &ColFixedStr{Size: 2} }},            // 11
-	{"ColDecimal64", func() ColResult { return new(ColDecimal64) }},                  // 12
-	{"ColArr[uint64]", func() ColResult { return new(ColUInt64).Array() }},           // 13
+	{"ColArr[uint8]", func() ColResult { return new(ColUInt8).Array() }},                    // 8
+	{"ColNullable[uint8]", func() ColResult { return new(ColUInt8).Nullable() }},            // 9
+	{"ColDecimal32", func() ColResult { return new(ColDecimal32) }},                         // 10
+	{"ColFixedStr(2)", func() ColResult { return &ColFixedStr{Size: 2} }},                   // 11
+	{"ColDecimal64", func() ColResult { return new(ColDecimal64) }},                         // 12
+	{"ColArr[uint64]", func() ColResult { return new(ColUInt64).Array() }},                  // 13
 }
 
 // vCompat[s][t]: +1 the pair must bind, -1 it must be rejected, 0 left open by the statement.
@@ -268,7 +268,7 @@ func VerifC18Decimal() {
 
 // kinds for block sequences: pairs that share a base type but differ in a parameter or element
 var vSeqKinds = []vSrvKind{
-	{"UInt8", vRawCells(1)},          // 0
+	{"UInt8", vRawCells(1)},             // 0
 	{"Array(UInt8)", vSrvKinds[8].cell}, // 1
 	{"Array(UInt64)", func(b *refBuf, rows int) { // 2
 		for i := 0; i < rows; i++ {
@@ -294,14 +294,14 @@ var vSeqKinds = []vSrvKind{
 		}
 		b.b = append(b.b, verifBytes("cell", 4*rows)...)
 	}},
-	{"FixedString(1)", vRawCells(1)},            // 6
-	{"FixedString(2)", vRawCells(2)},            // 7
-	{"DateTime64(3)", vRawCells(8)},             // 8
-	{"DateTime64(6)", vRawCells(8)},             // 9
-	{"Decimal(9, 2)", vRawCells(4)},             // 10
-	{"Decimal(18, 2)", vRawCells(8)},            // 11
-	{"Enum8('a'=1,'b'=2)", vSrvKinds[4].cell},   // 12
-	{"Enum8('x'=1,'y'=2)", vSrvKinds[4].cell},   // 13
+	{"FixedString(1)", vRawCells(1)},          // 6
+	{"FixedString(2)", vRawCells(2)},          // 7
+	{"DateTime64(3)", vRawCells(8)},           // 8
+	{"DateTime64(6)", vRawCells(8)},           // 9
+	{"Decimal(9, 2)", vRawCells(4)},           // 10
+	{"Decimal(18, 2)", vRawCells(8)},          // 11
+	{"Enum8('a'=1,'b'=2)", vSrvKinds[4].cell}, // 12
+	{"Enum8('x'=1,'y'=2)", vSrvKinds[4].cell}, // 13
 	{"Enum16('a'=1,'b'=2)", func(b *refBuf, rows int) { // 14
 		for i := 0; i < rows; i++ {
 			v := verifU8("cell")
@@ -310,9 +310,9 @@ var vSeqKinds = []vSrvKind{
 			b.u8(0)
 		}
 	}},
-	{"DateTime", vRawCells(4)},            // 15
-	{"DateTime('UTC')", vRawCells(4)},     // 16
-	{"String", vSrvKinds[3].cell},         // 17
+	{"DateTime", vRawCells(4)},        // 15
+	{"DateTime('UTC')", vRawCells(4)}, // 16
+	{"String", vSrvKinds[3].cell},     // 17
 }
 
 // VerifC18AutoSequence: two blocks with (possibly) different schemas against the same
@@ -372,4 +372,55 @@ func VerifC18AutoSequence() {
 		w := want.Data.(*ColDateTime64)
 		verifAssert(d.PrecisionSet == w.PrecisionSet && d.Precision == w.Precision, "rebound-datetime64-precision")
 	}
+}
+
+// VerifC01DecimalInfer: a block whose column type is spelled Decimal(P, S), as servers spell it,
+// decoded through automatic inference: for every precision 1..76 the inferred column has the
+// width its precision class defines (4/8/16/32 bytes per value), consumes exactly the block and
+// holds exactly the cells sent.
+func VerifC01DecimalInfer() {
+	version := 54460
+	p := verifIntRange("precision", 1, 76)
+	scale := 0
+	if verifChoice("scale", 2) == 1 {
+		scale = p
+	}
+	width := 4
+	switch {
+	case p >= 39:
+		width = 32
+	case p >= 19:
+		width = 16
+	case p >= 10:
+		width = 8
+	}
+	rows := verifIntRange("rows", 1, 2)
+	sep := [2]string{", ", ","}[verifChoice("spacing", 2)]
+	var w refBuf
+	w.vint(1)
+	w.vint(rows)
+	w.str("d")
+	w.str("Decimal(" + vItoa(p) + sep + vItoa(scale) + ")")
+	w.u8(0)
+	cells := verifBytes("cell", width*rows)
+	w.b = append(w.b, cells...)
+	var res Results
+	var blk Block
+	r := NewReader(bytes.NewReader(w.b))
+	err := blk.DecodeRawBlock(r, version, res.Auto())
+	verifAssert(err == nil, "decimal-auto-decode-ok")
+	if err != nil {
+		return
+	}
+	verifAssert(len(res) == 1 && res[0].Data.Rows() == rows, "decimal-auto-rows")
+	verifAssert(vBytesEq(vEncodeTarget(res[0].Data), cells), "decimal-auto-values")
+	verifAssert(vExhausted(r), "decimal-auto-exhausted")
+	verifObserveU64("width", uint64(width))
+}
+
+func vItoa(n int) string {
+	if n < 10 {
+		return string([]byte{byte('0' + n)})
+	}
+	return string([]byte{byte('0' + n/10), byte('0' + n%10)})
 }
